@@ -6,6 +6,8 @@ import (
 
 	schema "github.com/jsightapi/jsight-schema-core"
 	"github.com/jsightapi/jsight-schema-core/bytes"
+	"github.com/jsightapi/jsight-schema-core/errs"
+	"github.com/jsightapi/jsight-schema-core/kit"
 	"github.com/jsightapi/jsight-schema-core/notations/jschema"
 
 	"github.com/jsightapi/jsight-api-core/notation"
@@ -67,6 +69,13 @@ func NewExchangeJSightSchema[T bytes.ByteKeeper](
 	err = es.JSchema.Compile()
 	if err != nil {
 		return nil, err
+	}
+
+	// A body that holds no schema at all (e.g. nothing but a comment) compiles, but has no
+	// root node: without this check the error appears only when the catalog is serialised
+	// (its example cannot be built).
+	if es.JSchema.Inner.RootNode() == nil {
+		return nil, kit.NewJSchemaError(es.JSchema.File, errs.ErrEmptySchema.F())
 	}
 
 	return es, nil
